@@ -1,6 +1,7 @@
 import LimnoriaModel.C18.Model
 import LimnoriaModel.C18.Plugin
 import LimnoriaModel.C18.Heap
+import LimnoriaModel.C18.Loop
 import LimnoriaModel.Driver.Core
 namespace C18
 open Py Wire
@@ -173,6 +174,7 @@ structure St where
   s : Sched
   ps : Plug.PState
   hp : Heap.H := []
+  alive : Bool := true
 
 def decPicks (f : String) : Option (List Name) :=
   if f = "-" then some [] else (f.splitOn ",").mapM decName
@@ -198,7 +200,7 @@ def stepLine (st : St) : List String → Option (St × String)
     pure ({ st with prog := p' }, "ok")
   | ["new", t] => do
     let t' ← t.toNat?
-    pure ({ st with s := init t' }, "ok\t-\t" ++ encState (init t'))
+    pure ({ st with s := init t', alive := true }, "ok\t-\t" ++ encState (init t'))
   | ["add", fn, t, nm, args] => do
     let fn' ← fn.toNat?
     let t' ← decTime t
@@ -237,6 +239,12 @@ def stepLine (st : St) : List String → Option (St × String)
     match step st.prog st.s (.run ps) with
     | none => pure (st, "invalid")
     | some r => pure ({ st with s := r.1 }, render r "ok")
+  | ["drun", picks] => do
+    let ps ← decPicks picks
+    match driversRun st.prog ⟨st.s, st.alive⟩ ps with
+    | none => pure (st, "invalid")
+    | some r => pure ({ st with s := r.1.s, alive := r.1.alive },
+        render (r.1.s, r.2, none) (if r.1.alive then "ok" else "dead"))
   | ["tick", dt] => do
     let d ← dt.toNat?
     pure ({ st with s := { st.s with now := st.s.now + d } }, "ok\t-\t" ++ encState { st.s with now := st.s.now + d })
@@ -254,7 +262,7 @@ def stepLine (st : St) : List String → Option (St × String)
 
 def handler : Driver.Handler :=
   { σ := St
-    init := ⟨[], init 0, Plug.pinit 0, []⟩
+    init := ⟨[], init 0, Plug.pinit 0, [], true⟩
     step := fun st fs =>
       match stepLine st fs with
       | some r => r
